@@ -10,6 +10,7 @@ import (
 	"os"
 	"sort"
 	"strings"
+	"time"
 
 	"mltwist/internal/consoleui"
 	"mltwist/internal/consoleui/disassemble"
@@ -35,9 +36,13 @@ var Discard bool
 
 var devNull *os.File
 
+var realStdout = os.Stdout
+
 // Capture runs f with os.Stdout redirected and returns what was written.
 func Capture(f func()) string {
-	old := os.Stdout
+	// always restore the process's real stdout: after an abandoned (hung)
+	// call os.Stdout may still point at that call's capture
+	old := realStdout
 	if Discard {
 		if devNull == nil {
 			var err error
@@ -122,6 +127,16 @@ func New(segs []prog.Seg, entry uint64) (*Session, error) {
 // Tail is appended to every injected input so that prompts never hit EOF.
 var Tail = strings.Repeat("1\n", 60)
 
+// HangLimit bounds every call into the UI (a command normally takes well
+// under a millisecond). A call that exceeds it is reported like a crash, with
+// the site "HANG"; the check stops exploring in this process afterwards.
+var HangLimit = 30 * time.Second
+
+func hungResult(what string) *Result {
+	os.Stdout = realStdout // the abandoned call never restores it
+	return &Result{Panic: "no return: " + what, Stack: eng.HangMark + what}
+}
+
 // Result of one command.
 type Result struct {
 	Out   string
@@ -138,9 +153,16 @@ func (s *Session) Command(line string, answers ...string) *Result {
 	}
 	linereader.VerifSetInput(strings.NewReader(in + Tail))
 	res := &Result{}
-	res.Out = Capture(func() {
-		res.Panic, res.Stack = eng.Catch(func() { res.Err = consoleui.VerifProcess(s.UI) })
-	})
+	eng.StopIfHung() // an abandoned command still runs in this process: nothing more is executed
+	run := &Result{}
+	if !eng.Within(HangLimit, func() {
+		run.Out = Capture(func() {
+			run.Panic, run.Stack = eng.Catch(func() { run.Err = consoleui.VerifProcess(s.UI) })
+		})
+	}) {
+		return hungResult(fmt.Sprintf("the command %q did not return within %v", line, HangLimit))
+	}
+	res = run
 	if res.Err != nil && errors.Is(res.Err, consoleui.ErrQuit) {
 		s.Quit = true
 		res.Err = nil
@@ -151,7 +173,15 @@ func (s *Session) Command(line string, answers ...string) *Result {
 // Render prints the screen for a terminal of the given height following
 // view.Print; returns the text, and the panic if any.
 func (s *Session) Render(height int) *Result {
+	eng.StopIfHung()
 	res := &Result{}
+	if !eng.Within(HangLimit, func() { s.render(res, height) }) {
+		return hungResult(fmt.Sprintf("rendering at height %d did not return within %v", height, HangLimit))
+	}
+	return res
+}
+
+func (s *Session) render(res *Result, height int) {
 	res.Out = Capture(func() {
 		res.Panic, res.Stack = eng.Catch(func() {
 			e := consoleui.VerifScreen(s.UI)
@@ -165,7 +195,6 @@ func (s *Session) Render(height int) *Result {
 			res.Err = e.Print(n)
 		})
 	})
-	return res
 }
 
 // LinesWritten counts the screen lines a text occupies.
